@@ -4,8 +4,9 @@
   SPEC layer: Python list operations on `List α` (`PyL.*`, next to `Py.getSlice`/`Py.getIndex` of Model/Basic),
               `chunks`/`trailing`/`items` ("item i occupies bits [i*w, (i+1)*w)"), the documented promotion rules.
   ALG  layer: `bitstring/array_.py` transcribed method by method over the list-of-bits meaning of the
-              `BitArray` primitives it calls (slice get / slice assign / slice delete / overwrite / insert / append),
-              *including its use of `dtype.length` (units) where `dtype.bitlength` (bits) is meant*.
+              `BitArray` primitives it calls (slice get / slice assign / slice delete / overwrite / insert / append).
+              Widths and offsets are `dtype.bitlength` (`c.w = L * mult`); `dtype.length` (`c.L`, in units of
+              `bits_per_item`) only takes part in dtype identity (`extend`, `equals`, `_promotetype`).
               The item codec (`Dtype.build` / `Dtype.read_fn`) is a parameter `Codec V`; theorems hold for every
               codec that satisfies the stated hypotheses, the driver instantiates it for the registered dtypes.
 
@@ -85,9 +86,6 @@ structure Codec (V : Type) where
 /-- `dtype.bitlength`. -/
 def Codec.w {V} (c : Codec V) : Nat := c.L * c.mult
 
-/-- The code is right exactly for dtypes whose unit is one bit (every registered dtype except `bytes`). -/
-def Codec.unitWidth {V} (c : Codec V) : Bool := c.mult == 1
-
 /-- SPEC: item `k` occupies bits `[k*w, (k+1)*w)`. -/
 def chunks (w : Nat) (d : Bits) : List Bits :=
   (List.range (d.length / w)).map fun k => (d.drop (k * w)).take w
@@ -163,16 +161,16 @@ def Step.view {V α} (c : Codec V) (s : Step α) : Except Err (α × List V) :=
 section
 variable {V : Type}
 
-/-- `_create_element` (array_.py:171-176): build, then compare `len(b)` with `dtype.length` (not `bitlength`). -/
+/-- `_create_element` (array_.py:171-176): build, then compare `len(b)` with `dtype.bitlength`. -/
 def createElement (c : Codec V) (v : V) : Except Err Bits :=
   match c.enc v with
   | .error e => .error e
-  | .ok b => if b.length ≠ c.L then .error .value else .ok b
+  | .ok b => if b.length ≠ c.w then .error .value else .ok b
 
-/-- `__len__` (array_.py:178-179): `len(self.data) // self._dtype.length`. -/
-def len (c : Codec V) (d : Bits) : Nat := d.length / c.L
+/-- `__len__` (array_.py:178-179): `len(self.data) // self._dtype.bitlength`. -/
+def len (c : Codec V) (d : Bits) : Nat := d.length / c.w
 
-/-- `trailing_bits` (array_.py:140-143) — this one uses `bitlength`. -/
+/-- `trailing_bits` (array_.py:140-143). -/
 def trailingBits (c : Codec V) (d : Bits) : Bits :=
   let n := d.length % c.w
   if n = 0 then [] else bslice d (some (-(n : Int))) none
@@ -190,7 +188,7 @@ def normIndex (n : Nat) (key : Int) : Except Err Nat :=
 def getItem (c : Codec V) (d : Bits) (key : Int) : Except Err V :=
   match normIndex (len c d) key with
   | .error e => .error e
-  | .ok k => readAt c d (c.L * k)
+  | .ok k => readAt c d (c.w * k)
 
 /-- `a[start:stop:step]` (array_.py:190-202); the result is the data of the new Array (same dtype). -/
 def getSlice (c : Codec V) (d : Bits) (start stop step : Option Int) : Except Err Bits :=
@@ -198,10 +196,10 @@ def getSlice (c : Codec V) (d : Bits) (start stop step : Option Int) : Except Er
   if st = 0 then .error .value else
   let r := Py.sliceIndices start stop st (len c d)
   if st ≠ 1 then
-    .ok ((Py.rangeList (r.1 * c.L) (r.2.1 * c.L) (st * c.L)).foldl
-          (fun acc p => acc ++ bslice d (some p) (some (p + c.L))) [])
+    .ok ((Py.rangeList (r.1 * c.w) (r.2.1 * c.w) (st * c.w)).foldl
+          (fun acc p => acc ++ bslice d (some p) (some (p + c.w))) [])
   else
-    .ok (bslice d (some (r.1 * c.L)) (some (r.2.1 * c.L)))
+    .ok (bslice d (some (r.1 * c.w)) (some (r.2.1 * c.w)))
 
 /-- `a[key] = value` for an int key (array_.py:238-244). -/
 def setItem (c : Codec V) (d : Bits) (key : Int) (v : V) : Step Unit :=
@@ -211,7 +209,7 @@ def setItem (c : Codec V) (d : Bits) (key : Int) (v : V) : Step Unit :=
     match createElement c v with
     | .error e => ⟨d, .error e⟩
     | .ok b =>
-      match bOverwrite d b ((c.L * k : Nat) : Int) with
+      match bOverwrite d b ((c.w * k : Nat) : Int) with
       | .error e => ⟨d, .error e⟩
       | .ok d' => ⟨d', .ok ()⟩
 
@@ -234,7 +232,7 @@ def overwriteLoop (c : Codec V) : List (Int × V) → Bits → Step Unit
     match createElement c v with
     | .error e => ⟨d, .error e⟩
     | .ok b =>
-      match bOverwrite d b (s * c.L) with
+      match bOverwrite d b (s * c.w) with
       | .error e => ⟨d, .error e⟩
       | .ok d' => overwriteLoop c rest d'
 
@@ -246,7 +244,7 @@ def setSlice (c : Codec V) (d : Bits) (start stop step : Option Int) (vals : Lis
   if st = 1 then
     match createAll c vals with
     | .error e => ⟨d, .error e⟩
-    | .ok nd => ⟨bsetSlice d (r.1 * c.L) (r.2.1 * c.L) nd, .ok ()⟩
+    | .ok nd => ⟨bsetSlice d (r.1 * c.w) (r.2.1 * c.w) nd, .ok ()⟩
   else
     if vals.length = Py.rangeLen r.1 r.2.1 st then
       overwriteLoop c ((Py.rangeList r.1 r.2.1 st).zip vals) d
@@ -256,26 +254,26 @@ def setSlice (c : Codec V) (d : Bits) (start stop step : Option Int) (vals : Lis
 def delItem (c : Codec V) (d : Bits) (key : Int) : Step Unit :=
   match normIndex (len c d) key with
   | .error e => ⟨d, .error e⟩
-  | .ok k => ⟨bdelSlice d ((c.L * k : Nat) : Int) ((c.L * k : Nat) + c.L), .ok ()⟩
+  | .ok k => ⟨bdelSlice d ((c.w * k : Nat) : Int) ((c.w * k : Nat) + c.w), .ok ()⟩
 
 /-- `del a[start:stop:step]` (array_.py:247-255): extended slices delete from the end. -/
 def delSlice (c : Codec V) (d : Bits) (start stop step : Option Int) : Step Unit :=
   let st := step.getD 1
   if st = 0 then ⟨d, .error .value⟩ else
   let r := Py.sliceIndices start stop st (len c d)
-  if st = 1 then ⟨bdelSlice d (r.1 * c.L) (r.2.1 * c.L), .ok ()⟩
+  if st = 1 then ⟨bdelSlice d (r.1 * c.w) (r.2.1 * c.w), .ok ()⟩
   else
     let idx := Py.rangeList r.1 r.2.1 st
     let order := if st > 0 then idx.reverse else idx
-    ⟨order.foldl (fun acc s => bdelSlice acc (s * c.L) ((s + 1) * c.L)) d, .ok ()⟩
+    ⟨order.foldl (fun acc s => bdelSlice acc (s * c.w) ((s + 1) * c.w)) d, .ok ()⟩
 
 /-- `tolist` (array_.py:276-278): `range(0, len(data) - L + 1, L)`. -/
 def tolist (c : Codec V) (d : Bits) : Except Err (List V) :=
-  (Py.rangeList 0 ((d.length : Int) - c.L + 1) c.L).mapM fun s => readAt c d s.toNat
+  (Py.rangeList 0 ((d.length : Int) - c.w + 1) c.w).mapM fun s => readAt c d s.toNat
 
 /-- `append` (array_.py:280-283). -/
 def append (c : Codec V) (d : Bits) (v : V) : Step Unit :=
-  if d.length % c.L ≠ 0 then ⟨d, .error .value⟩ else
+  if d.length % c.w ≠ 0 then ⟨d, .error .value⟩ else
   match createElement c v with
   | .error e => ⟨d, .error e⟩
   | .ok b => ⟨d ++ b, .ok ()⟩
@@ -290,31 +288,32 @@ def extendLoop (c : Codec V) : List V → Bits → Step Unit
 
 /-- `extend(iterable)` for a plain iterable (array_.py:285-287, 304-308). -/
 def extendIter (c : Codec V) (d : Bits) (vals : List V) : Step Unit :=
-  if d.length % c.L ≠ 0 then ⟨d, .error .value⟩ else extendLoop c vals d
+  if d.length % c.w ≠ 0 then ⟨d, .error .value⟩ else extendLoop c vals d
 
 /-- `extend(other_Array)` (array_.py:288-293): same name and length, then the other's *data* is appended. -/
 def extendArr (c : Codec V) (d : Bits) (c2 : Codec V) (d2 : Bits) : Step Unit :=
-  if d.length % c.L ≠ 0 then ⟨d, .error .value⟩ else
+  if d.length % c.w ≠ 0 then ⟨d, .error .value⟩ else
   if c.name ≠ c2.name ∨ c.L ≠ c2.L then ⟨d, .error .type⟩ else ⟨d ++ d2, .ok ()⟩
 
-/-- `extend(array.array)` (array_.py:294-303): the dtype compared is the one of `'=' + typecode` (standard
-    sizes: `other`, `none` = no such struct code), the bytes appended are `iterable.tobytes()` (`raw`, items of the
-    platform's native size `native` bits — which the code never looks at). -/
-def extendBuf (c : Codec V) (d : Bits) (other : Option (String × Nat)) (_native : Nat) (raw : Bits) : Step Unit :=
-  if d.length % c.L ≠ 0 then ⟨d, .error .value⟩ else
-  match other with
+/-- `extend(array.array)` (array_.py:294-305): the kind comes from the typecode (`kind` = the dtype name of
+    `'=' + typecode`, `none` = no such struct code), the width is the array's own item size (`native` bits);
+    the bytes appended are `iterable.tobytes()` (`raw`). -/
+def extendBuf (c : Codec V) (d : Bits) (kind : Option String) (native : Nat) (raw : Bits) : Step Unit :=
+  if d.length % c.w ≠ 0 then ⟨d, .error .value⟩ else
+  match kind with
   | none => ⟨d, .error .value⟩
-  | some (name2, L2) =>
-    if c.name ≠ name2 ∨ c.L ≠ L2 then ⟨d, .error .value⟩ else ⟨d ++ raw, .ok ()⟩
+  | some name2 =>
+    if c.name ≠ name2 ∨ c.L ≠ native then ⟨d, .error .value⟩ else ⟨d ++ raw, .ok ()⟩
 
-/-- `insert(i, x)` (array_.py:310-315): `i = min(i, len(self))`; a negative `i` goes to `BitArray.insert` as a
-    negative *bit* position. -/
+/-- `insert(i, x)` (array_.py:312-320): a negative `i` counts from the end of the items, everything is clamped to
+    `[0, len]`, then `BitArray.insert` at bit position `i * bitlength`. -/
 def insert (c : Codec V) (d : Bits) (i : Int) (v : V) : Step Unit :=
-  let i' := min i (len c d)
+  let i1 : Int := if i < 0 then max (i + (len c d : Nat)) 0 else i
+  let i' := min i1 (len c d)
   match createElement c v with
   | .error e => ⟨d, .error e⟩
   | .ok b =>
-    match bInsert d b (i' * c.L) with
+    match bInsert d b (i' * c.w) with
     | .error e => ⟨d, .error e⟩
     | .ok d' => ⟨d', .ok ()⟩
 
@@ -329,17 +328,17 @@ def pop (c : Codec V) (d : Bits) (i : Int) : Step V :=
 
 /-- `reverse` (array_.py:381-390): the swap loop. -/
 def reverse (c : Codec V) (d : Bits) : Step Unit :=
-  if d.length % c.L ≠ 0 then ⟨d, .error .value⟩ else
-  ⟨(Py.rangeList 0 ((d.length / 2 : Nat) : Int) c.L).foldl (fun acc sb =>
-      let sw : Int := (acc.length : Int) - sb - c.L
-      let temp := bslice acc (some sb) (some (sb + c.L))
-      let acc1 := bsetSlice acc sb (sb + c.L) (bslice acc (some sw) (some (sw + c.L)))
-      bsetSlice acc1 sw (sw + c.L) temp) d, .ok ()⟩
+  if d.length % c.w ≠ 0 then ⟨d, .error .value⟩ else
+  ⟨(Py.rangeList 0 ((d.length / 2 : Nat) : Int) c.w).foldl (fun acc sb =>
+      let sw : Int := (acc.length : Int) - sb - c.w
+      let temp := bslice acc (some sb) (some (sb + c.w))
+      let acc1 := bsetSlice acc sb (sb + c.w) (bslice acc (some sw) (some (sw + c.w)))
+      bsetSlice acc1 sw (sw + c.w) temp) d, .ok ()⟩
 
 /-- `__iter__` (array_.py:472-476): `len(self)` reads at `start`, `start += L`. -/
 def iterLoop (c : Codec V) (d : Bits) : Nat → Nat → List (Except Err V)
   | 0, _ => []
-  | n + 1, start => readAt c d start :: iterLoop c d n (start + c.L)
+  | n + 1, start => readAt c d start :: iterLoop c d n (start + c.w)
 
 def iter (c : Codec V) (d : Bits) : Except Err (List V) :=
   (iterLoop c d (len c d) 0).mapM id
@@ -349,18 +348,14 @@ structure ValOps (V : Type) where
   isnan : V → Except Err Bool
   eq : V → V → Bool
 
-/-- `count(value)` (array_.py:340-351). -/
+/-- `count(value)` (array_.py:345-361): a value `math.isnan` cannot take (str, bytes, Bits) is not NaN. -/
 def count (c : Codec V) (vo : ValOps V) (d : Bits) (value : V) : Except Err Nat :=
-  match vo.isnan value with
+  let isNan : Bool := match vo.isnan value with | .ok b => b | .error _ => false
+  match iter c d with
   | .error e => .error e
-  | .ok true =>
-    match iter c d with
-    | .error e => .error e
-    | .ok l => .ok (l.countP fun i => match vo.isnan i with | .ok b => b | .error _ => false)
-  | .ok false =>
-    match iter c d with
-    | .error e => .error e
-    | .ok l => .ok (l.countP fun i => vo.eq i value)
+  | .ok l =>
+    if isNan then .ok (l.countP fun i => match vo.isnan i with | .ok b => b | .error _ => false)
+    else .ok (l.countP fun i => vo.eq i value)
 
 /-- `equals(other_Array)` (array_.py:450-457). -/
 def equals (c : Codec V) (d : Bits) (c2 : Codec V) (d2 : Bits) : Bool :=
@@ -401,8 +396,8 @@ def revBytes (b : Bits) : Bits := ((chunks 8 b).reverse).flatten
 /-- `byteswap()` (array_.py:329-338) → `BitArray.byteswap(itemsize // 8)` with `repeat=True`
     (bitarray_.py:514-572): every complete group of `8 * (L / 8)` bits is byte-reversed. -/
 def byteswap (c : Codec V) (d : Bits) : Step Unit :=
-  if c.L % 8 ≠ 0 then ⟨d, .error .value⟩ else
-  let total := 8 * (c.L / 8)
+  if c.w % 8 ≠ 0 then ⟨d, .error .value⟩ else
+  let total := 8 * (c.w / 8)
   if total = 0 then ⟨d, .ok ()⟩ else
   ⟨(Py.rangeList total ((d.length : Int) + 1) total).foldl (fun acc pe =>
       let bs : Int := pe - total
@@ -414,7 +409,7 @@ def tobytes (d : Bits) : Bits := d ++ List.replicate ((8 - d.length % 8) % 8) fa
 /-- `fromfile(f, n)` (array_.py:369-379); `nb` = the bits of the rest of the file. -/
 def fromfile (c : Codec V) (d : Bits) (nb : Bits) (n : Option Int) : Step Unit :=
   if d.length % c.w ≠ 0 then ⟨d, .error .value⟩ else
-  let maxItems : Int := (nb.length / c.L : Nat)
+  let maxItems : Int := (nb.length / c.w : Nat)
   let k : Int := match n with | Option.none => maxItems | some n => min n maxItems
   let d' := d ++ bslice nb (some 0) (some (k * c.w))
   match n with
@@ -440,7 +435,7 @@ def buildResult (cr : Codec V) (r : Except Err V) : Except Err Bits :=
 def opLoop (c cr : Codec V) (f : V → Except Err V) (d : Bits) : List Nat → Bits → Nat → Except Err (Bits × Nat)
   | [], nd, fails => .ok (nd, fails)
   | i :: is, nd, fails =>
-    match readAt c d (c.L * i) with
+    match readAt c d (c.w * i) with
     | .error e => .error e
     | .ok v =>
       match buildResult cr (f v) with
@@ -461,9 +456,9 @@ def applyOpInplace (c : Codec V) (f : V → Except Err V) (d : Bits) : Step Unit
 
 /-- `_apply_bitwise_op_to_all_elements_inplace` (array_.py:537-544). -/
 def bitwiseInplace (c : Codec V) (op : Bool → Bool → Bool) (d : Bits) (value : Bits) : Step Unit :=
-  if value.length ≠ c.L then ⟨d, .error .value⟩ else
-  ⟨(Py.rangeList 0 ((len c d * c.L : Nat) : Int) c.L).foldl (fun acc s =>
-      bsetSlice acc s (s + c.L) (List.zipWith op (bslice acc (some s) (some (s + c.L))) value)) d, .ok ()⟩
+  if value.length ≠ c.w then ⟨d, .error .value⟩ else
+  ⟨(Py.rangeList 0 ((len c d * c.w : Nat) : Int) c.w).foldl (fun acc s =>
+      bsetSlice acc s (s + c.w) (List.zipWith op (bslice acc (some s) (some (s + c.w))) value)) d, .ok ()⟩
 
 /-- `_apply_bitwise_op_to_all_elements` (array_.py:531-535): `a_copy = self[:]`, then in place on the copy. -/
 def bitwise (c : Codec V) (op : Bool → Bool → Bool) (d : Bits) (value : Bits) : Except Err Bits :=
@@ -480,10 +475,10 @@ def opLoop2 (c1 c2 cr : Codec V) (f : V → V → Except Err V) (d1 d2 : Bits) :
     List Nat → Bits → Nat → Except Err (Bits × Nat)
   | [], nd, fails => .ok (nd, fails)
   | i :: is, nd, fails =>
-    match readAt c1 d1 (c1.L * i) with
+    match readAt c1 d1 (c1.w * i) with
     | .error e => .error e
     | .ok a =>
-      match readAt c2 d2 (c2.L * i) with
+      match readAt c2 d2 (c2.w * i) with
       | .error e => .error e
       | .ok b =>
         match buildResult cr (f a b) with
@@ -497,19 +492,12 @@ def betweenArrays (c1 c2 cr : Codec V) (f : V → V → Except Err V) (d1 d2 : B
   | .error e => .error e
   | .ok (nd, fails) => if fails ≠ 0 then .error .value else .ok nd
 
-/-- `__rsub__` (array_.py:722-725): `i - A` is computed as `(-A) + i`, two full passes. -/
-def rsub (c : Codec V) (fneg fadd : V → Except Err V) (d : Bits) : Except Err Bits :=
-  match applyOp c c fneg d with
-  | .error e => .error e
-  | .ok nd => applyOp c c fadd nd
+/-- `__rsub__` (array_.py:732-736): `i - A` element by element (`frsub v = i - v`). -/
+def rsub (c : Codec V) (frsub : V → Except Err V) (d : Bits) : Except Err Bits := applyOp c c frsub d
 
-/-- `_eq_ne` with an Array operand (array_.py:760-764): `other = self.__class__(self.dtype, other)` — i.e.
-    `extend(other)` on an empty Array of our dtype, which refuses another dtype — then element-wise into `bool`. -/
+/-- `_eq_ne` with an Array operand (array_.py:771-777): straight to the element-wise comparison into `bool`. -/
 def eqNeArrays (c cb : Codec V) (f : V → V → Except Err V) (d : Bits) (c2 : Codec V) (d2 : Bits) : Except Err Bits :=
-  let conv := extendArr c [] c2 d2
-  match conv.res with
-  | .error e => .error e
-  | .ok _ => betweenArrays c c cb f d conv.data
+  betweenArrays c c2 cb f d d2
 
 end
 
@@ -591,42 +579,11 @@ def sameOutcome {α} (a b : Except Err α) : Prop :=
   | .error _, .error _ => True
   | _, _ => False
 
-/-! ### regions of the known findings (same names in harness/props/C14.py REGIONS) -/
-
-/-- `bytesN` dtypes: `dtype.length` counts bytes, the code uses it as a bit count. -/
-def bytes_dtype {V} (c : Codec V) : Bool := c.mult != 1
-
-/-- `count(value)` calls `math.isnan(value)` first: TypeError for str / bytes / Bits values. -/
-def count_nonnumeric {V} (vo : ValOps V) (value : V) : Bool :=
-  match vo.isnan value with
-  | .error _ => true
-  | .ok _ => false
-
-/-- `insert(i, x)` with a negative `i`: the bit position `i * L` is taken from the end of the *data*, so trailing
-    bits shift the insertion point into the middle of an item, and `i < -len` is an error instead of position 0. -/
-def insert_negative {V} (c : Codec V) (d : Bits) (i : Int) : Bool :=
-  decide (i < 0) && (d.length % c.L != 0 || decide (i < -((len c d : Nat) : Int)))
-
-/-- `==` / `!=` with an Array of another dtype goes through `Array(self.dtype, other)`, which refuses it. -/
-def eq_ne_arrays_mixed_dtype {V} (c c2 : Codec V) : Bool := c.name != c2.name || c.L != c2.L
-
-/-- `extend(array.array)` where the native item size differs from the standard size of the typecode ('l', 'L'). -/
-def extend_array_itemsize (other : Option (String × Nat)) (native : Nat) : Bool :=
-  match other with
-  | some (_, l) => l != native
-  | none => false
-
-/-- `k - A` goes through `-A`: it raises whenever the negation of some item does not fit (every non-zero item of an
-    unsigned Array), whether or not `k - item` fits. -/
-def rsub_negation {V} (c : Codec V) (fneg : V → Except Err V) (d : Bits) : Bool :=
-  (items c d).any fun v => match buildResult c (fneg v) with | .ok _ => false | .error _ => true
-
-/-- Operations on which the property fixes the behaviour and the pinned tree is not known to deviate: outside the
-    `insert_negative` and `count_nonnumeric` regions; for multi-value mutators every value fits (otherwise the
-    property does not say how much was stored before the exception). -/
-def admissible {V} (c : Codec V) (vo : ValOps V) (d : Bits) : Op V → Bool
-  | .insert i _ => !insert_negative c d i
-  | .count v => match vo.isnan v with | .ok false => true | _ => false
+/-- Operations on which the property fixes the behaviour: for multi-value mutators every value fits (otherwise the
+    property does not say how much was stored before the exception); `count(nan)` is the documented special case
+    ("counts the NaN items"), not `list.count`. -/
+def admissible {V} (c : Codec V) (vo : ValOps V) : Op V → Bool
+  | .count v => match vo.isnan v with | .ok true => false | _ => true
   | .setSlice _ _ _ vals => vals.all (fits c)
   | .extend vals => vals.all (fits c)
   | _ => true
@@ -650,7 +607,7 @@ def listRun {V} (c : Codec V) (vo : ValOps V) : List (Op V) → LState V → LSt
 /-- Every operation of the history is admissible in the state in which it runs. -/
 def admissibleRun {V} (c : Codec V) (vo : ValOps V) : List (Op V) → Bits → Bool
   | [], _ => true
-  | op :: ops, d => admissible c vo d op && admissibleRun c vo ops (arrStep c vo op d).data
+  | op :: ops, d => admissible c vo op && admissibleRun c vo ops (arrStep c vo op d).data
 
 def Admissible {V} (c : Codec V) (vo : ValOps V) (ops : List (Op V)) (d : Bits) : Prop :=
   admissibleRun c vo ops d = true
@@ -878,11 +835,11 @@ def stepOp (s : St) (f : List String) : Option (String × St × Bool) :=
       | .error _ => none
     | _, _, _ => none
   | ["extself"] => mut1 (extendArr c d c d)
-  | "extb" :: _ :: name2 :: l2 :: native :: raw :: _ =>
+  | "extb" :: _ :: name2 :: _ :: native :: raw :: _ =>
     match bitsOfStr? raw, native.toNat? with
     | some raw, some native =>
       if name2 = "None" then mut1 (extendBuf c d none native raw)
-      else l2.toNat?.bind fun l2 => mut1 (extendBuf c d (some (name2, l2)) native raw)
+      else mut1 (extendBuf c d (some name2) native raw)
     | _, _ => none
   | ["ins", i, v] =>
     match i.toInt?, valOfStr? v with
@@ -921,8 +878,8 @@ def stepOp (s : St) (f : List String) : Option (String × St × Bool) :=
       (arrTok cr (applyOp c cr (scalarFn op k false) d), s, false)
   | ["rop", op, k] => (valOfStr? k).map fun k =>
       if op = "sub" then
-        -- __rsub__ (array_.py:722-725): neg, then add
-        (arrTok c (rsub c (pyUn "neg") (scalarFn "add" k false) d), s, false)
+        -- __rsub__ (array_.py:732-736): k - item, element by element
+        (arrTok c (rsub c (scalarFn "sub" k true) d), s, false)
       else (arrTok c (applyOp c c (scalarFn op k false) d), s, false)
   | ["iop", op, k] => (valOfStr? k).bind fun k => mut1 (applyOpInplace c (scalarFn op k false) d)
   | ["uop", op] => some (arrTok c (applyOp c c (pyUn op) d), s, false)
@@ -943,7 +900,6 @@ def stepOp (s : St) (f : List String) : Option (String × St × Bool) :=
       | .error _ => none
       | .ok d2 =>
         if op = "eq" ∨ op = "ne" then
-          -- _eq_ne (array_.py:760-764): `other = Array(self.dtype, other)` first — extend() refuses another dtype
           some (arrTok boolCodec (eqNeArrays c boolCodec (pyBinV op) d c2 d2), s, false)
         else if isCmp op then
           some (arrTok boolCodec (betweenArrays c c2 boolCodec (pyBinV op) d d2), s, false)
